@@ -21,6 +21,7 @@ import (
 	"k8s.io/apimachinery/pkg/api/resource"
 	metafuzzer "k8s.io/apimachinery/pkg/apis/meta/fuzzer"
 	metav1 "k8s.io/apimachinery/pkg/apis/meta/v1"
+	"k8s.io/apimachinery/pkg/types"
 	"k8s.io/apimachinery/pkg/util/intstr"
 	"k8s.io/apimachinery/pkg/util/sets"
 	"k8s.io/client-go/kubernetes/scheme"
@@ -363,6 +364,39 @@ func runC19(ctx *Ctx) *Result {
 			add(i, "resubmit-changed-template", "re-submitting the read-back object changed the stored object (generation "+fmt.Sprint(storedBefore.Generation, "->", storedAfter.Generation)+"): "+
 				jsonSubset(toGeneric(storedBefore.Spec), toGeneric(storedAfter.Spec), "spec")+jsonSubset(toGeneric(storedAfter.Spec), toGeneric(storedBefore.Spec), "spec"), nil)
 		}
+		// a second object, then List and Patch through the hijack client
+		in2 := in.DeepCopy()
+		in2.Name = "web2"
+		if _, err := hc.AppsV1().StatefulSets("ns").Create(bg, in2, metav1.CreateOptions{}); err != nil {
+			add(i, "hijack-create-failed", err.Error(), nil)
+		} else if l, err := hc.AppsV1().StatefulSets("ns").List(bg, metav1.ListOptions{}); err != nil {
+			add(i, "hijack-list-failed", err.Error(), nil)
+		} else {
+			res.Stats["hijack_lists"]++
+			if len(l.Items) != 2 || l.Items[0].Name != "web" || l.Items[1].Name != "web2" {
+				add(i, "list-length", fmt.Sprintf("List through the hijack client returned %d items", len(l.Items)), nil)
+			} else {
+				for k := range l.Items {
+					if l.Items[k].APIVersion != "apps/v1" {
+						add(i, "list-order-or-type", "listed item typed "+l.Items[k].APIVersion, nil)
+					}
+				}
+				if !apiequality.Semantic.DeepEqual(l.Items[0].Spec, again.Spec) {
+					add(i, "list-item-differs-from-get", jsonSubset(toGeneric(again.Spec), toGeneric(l.Items[0].Spec), "spec"), nil)
+				}
+			}
+		}
+		if pd, err := hc.AppsV1().StatefulSets("ns").Patch(bg, "web", types.MergePatchType, []byte(`{"metadata":{"labels":{"patched":"yes"}}}`), metav1.PatchOptions{}); err != nil {
+			add(i, "hijack-patch-failed", err.Error(), nil)
+		} else {
+			res.Stats["hijack_patches"]++
+			stored := srv.Get(simapi.Sets, "ns", "web").(*asv1.StatefulSet)
+			if pd.APIVersion != "apps/v1" || pd.Labels["patched"] != "yes" || stored.Labels["patched"] != "yes" || jsonOf(stored.Spec) != jsonOf(storedAfter.Spec) {
+				add(i, "patch-through-hijack", fmt.Sprintf("a metadata patch through the hijack client came back wrong or changed the spec: typed %s, label on result %q, label stored %q, spec diff: %s%s", pd.APIVersion, pd.Labels["patched"], stored.Labels["patched"],
+					jsonSubset(toGeneric(storedAfter.Spec), toGeneric(stored.Spec), "spec"), jsonSubset(toGeneric(stored.Spec), toGeneric(storedAfter.Spec), "spec")), nil)
+			}
+			again.ResourceVersion = pd.ResourceVersion
+		}
 		// status through UpdateStatus
 		st := again.DeepCopy()
 		st.Status = *x.Status.DeepCopy()
@@ -482,5 +516,5 @@ func init() {
 		Rule:   "apps/v1 StatefulSets generated by gofuzz with apimachinery's meta fuzzer functions plus custom functions (Quantity, IntOrString, Time, nil vs empty collections, every optional pointer nil/non-nil, defaulted and undefaulted enums) over the whole modelled schema; per object: conversion round trip, defaulting idempotence, list conversion, Create/Get/Update/UpdateStatus through the real hijack client over simapi; plus the slot-set / pause-flag codecs over all subsets of int32 extremes x annotation maps (nil, empty, others) and 2000 random int32 sets; distinct = distinct generated spec",
 		Assume: []string{"the five apps/v1 fields the Advanced type does not model (derived by reflection at run time and recorded in the evidence) are zeroed before the comparison", "metadata of the object written through the hijack client is limited to name/namespace/labels/annotations (the API server owns the rest)"},
 		Cases:  scenarioCases(8000, 120000), Run: runC19,
-		Floors: []string{"round_trips", "defaulting_idempotence_checks", "hijack_create_get", "hijack_resubmits", "slot_codec_cases", "objects_with_empty_nonnil_collections"}})
+		Floors: []string{"round_trips", "defaulting_idempotence_checks", "hijack_create_get", "hijack_resubmits", "hijack_lists", "hijack_patches", "slot_codec_cases", "objects_with_empty_nonnil_collections"}})
 }
